@@ -202,6 +202,19 @@ func (fx *FnExec) addAxioms(pkg string) {
 			if used[ax] || (ax.Pkg != "" && ax.Pkg != pkg) {
 				continue
 			}
+			if ax.Manual {
+				ok := false
+				if r := fx.root(); r.con != nil {
+					for _, u := range r.con.Uses {
+						if u == ax.Name {
+							ok = true
+						}
+					}
+				}
+				if !ok {
+					continue
+				}
+			}
 			names := map[string]bool{}
 			collectCalls(ax.Expr, names)
 			relevant := false
